@@ -84,6 +84,7 @@ type Obligation struct {
 	Bytes   int
 	Outputs map[string]string
 	Text    string // source text of the clause
+	Clause  *Clause
 }
 
 // FuncCtx is the per-function verification context.
@@ -115,6 +116,7 @@ type FuncCtx struct {
 	curDecl  *ast.FuncDecl
 	specEnv  map[string]*Val
 	unfoldFacts []string
+	paramList []paramInfo
 }
 
 type State struct {
